@@ -92,12 +92,28 @@ def run_patch(patch, prop_ids, repo="/repo", keep=False):
             shutil.rmtree(d, ignore_errors=True)
 
 
-def corpus(only=None, repo="/repo"):
+def _corpus_entry(job):
+    name, pid, kind, check_props, patch, repo = job
+    from terms import run_with_big_stack
+    r = run_with_big_stack(run_patch, patch, check_props, repo)
+    if r["status"] == "skipped":
+        return (name, pid, kind, "skipped", r["reason"])
+    nv = sum(len(v) for v in r["violations"].values())
+    first = next((v[0] for v in r["violations"].values() if v), None)
+    if kind == "mutant":
+        return (name, pid, kind, "caught" if nv else "MISSED", first["key"] if first else "")
+    rules = sorted(set(v["rule"] for vs in r["violations"].values() for v in vs))
+    return (name, pid, kind, "silent" if not nv else "FALSE-ALARM", ",".join(rules))
+
+
+def corpus(only=None, repo="/repo", jobs=None, names=None):
     root = os.path.join(VERIF, "seeded")
-    rows = []
+    todo = []
     for name in sorted(os.listdir(root)) if os.path.isdir(root) else []:
         mp = os.path.join(root, name, "meta.json")
         if not os.path.exists(mp):
+            continue
+        if names and not any(name.startswith(n) for n in names):
             continue
         meta = json.load(open(mp))
         pid = meta.get("property")
@@ -108,22 +124,19 @@ def corpus(only=None, repo="/repo"):
         if only:
             check_props = [only]
         patch = os.path.join(root, name, "patch.diff")
-        r = run_patch(patch, [p for p in check_props if p in props.PROPS], repo)
-        if r["status"] == "skipped":
-            rows.append((name, pid, kind, "skipped", r["reason"]))
-            continue
-        nv = sum(len(v) for v in r["violations"].values())
-        first = next((v[0] for v in r["violations"].values() if v), None)
-        if kind == "mutant":
-            rows.append((name, pid, kind, "caught" if nv else "MISSED", first["key"] if first else ""))
-        else:
-            rows.append((name, pid, kind, "silent" if not nv else "FALSE-ALARM", first["key"] if first else ""))
-    return rows
+        todo.append((name, pid, kind, [p for p in check_props if p in props.PROPS], patch, repo))
+    jobs = jobs or int(os.environ.get("VP_JOBS", "0")) or min(12, os.cpu_count() or 1)
+    if jobs <= 1 or len(todo) <= 1:
+        return [_corpus_entry(j) for j in todo]
+    import concurrent.futures
+    with concurrent.futures.ProcessPoolExecutor(max_workers=jobs) as ex:
+        return list(ex.map(_corpus_entry, todo))
 
 
 if __name__ == "__main__":
     if len(sys.argv) >= 4 and sys.argv[1] == "run":
-        r = run_patch(sys.argv[2], sys.argv[3:])
+        from terms import run_with_big_stack
+        r = run_with_big_stack(run_patch, sys.argv[2], sys.argv[3:])
         if r["status"] != "ran":
             print(r)
             sys.exit(2)
@@ -132,7 +145,14 @@ if __name__ == "__main__":
             for v in vs[:12]:
                 print("   %s\n       %s: %s" % (v["key"], v["loc"], v["msg"][:300]))
     elif len(sys.argv) >= 2 and sys.argv[1] == "corpus":
-        for row in corpus(sys.argv[2] if len(sys.argv) > 2 else None):
+        # corpus [Cxx] [--only NAMEPREFIX,...]
+        args = sys.argv[2:]
+        names = None
+        if "--only" in args:
+            i = args.index("--only")
+            names = args[i + 1].split(",")
+            args = args[:i] + args[i + 2:]
+        for row in corpus(args[0] if args else None, names=names):
             print("%-28s %-4s %-7s %-11s %s" % row)
     else:
         print(__doc__)
